@@ -89,7 +89,7 @@ func init() {
 	// ------------------------------------------------------------ C07
 	Register(&Check{
 		ID: "C07", Level: "fault_enumeration", Tech: "deterministic simulation: duplicate-delivery of the log - replay of the whole tape into every prefix index (restart at each call boundary), twice",
-		Rule:      "per generated history (moves, delete-then-recreate, renames onto used names) and for EVERY call boundary j: index I_j = rebuild of the tape prefix at j; the whole tape is then re-indexed into I_j without wiping, twice; each pass must return nil and the observed tree+contents after pass 1, after pass 2 and of a from-scratch rebuild must be identical; an evaluation = one (history, j); non-trivial = the prefix index differs from the final state; distinct by (history, j)",
+		Rule:      "per generated history (moves, delete-then-recreate, renames onto used names) and for EVERY call boundary and every record boundary j: index I_j = rebuild of the tape prefix at j; the whole tape is then re-indexed into I_j without wiping, twice; each pass must return nil and the observed tree+contents after pass 1, after pass 2 and of a from-scratch rebuild must be identical; an evaluation = one (history, j); non-trivial = the prefix index differs from the final state; distinct by (history, j)",
 		QuickRuns: 700, QuickSecs: 60, ThoroughRuns: 15000, ThoroughSecs: 1500,
 		Assumptions: []string{"prefix indexes are produced by rebuilding the tape cut at a call boundary"},
 		Gen: func(r *rand.Rand, tier string, relax Relax) *Case {
@@ -302,6 +302,17 @@ func evalC07(t *testing.T, c *Case, st *Stats, relax Relax) *Violation {
 				js = append(js, e)
 			}
 		}
+		// also every record boundary inside a call's archive (an index that reflects
+		// only the first records of a multi-record call, e.g. of a recursive remove)
+		for _, r := range ti.recs {
+			e := int(r.DataOff + roundUp512(r.Size))
+			if e <= len(ti.tape) && !ends[e] {
+				ends[e] = true
+				js = append(js, e)
+				st.Add("prefixes_inside_a_call", 1)
+			}
+		}
+		sort.Ints(js)
 		if only := c.Param("j", -1); only >= 0 {
 			js = []int{int(only)}
 		}
